@@ -106,6 +106,9 @@ NeededMust(script, goal) == UNION { Upstream(script, g, "must") : g \in GoalSet(
 Always(script) == { nm \in Targets(script) : LET d == Decl(script, nm) IN (d.kind = "step" /\ d.always) \/ d.kind = "cmd" }
 \* copies made as symbolic links: after the first build they need not run again
 SymCopies(script) == { nm \in Targets(script) : LET d == Decl(script, nm) IN d.kind = "copy" /\ d.mode = "symlink" }
+\* symbolic-link copies with extra_deps= (see the recorded finding: re-made on every build once an
+\* extra dependency is newer than what the link points to)
+SymX(script) == { nm \in SymCopies(script) : Decl(script, nm).xdeps # <<>> }
 \* steps that have an action (an alias has none; a dual-use library has two)
 ArActs(script) == { ArName(nm) : nm \in Duals(script) }
 Acts(script) == { nm \in Targets(script) : Decl(script, nm).kind # "alias" } \cup ArActs(script)
@@ -125,7 +128,9 @@ ObjReadsFile(script, o, f) == \/ o[2].f # "" /\ (o[2].f = f \/ f \in Includes(o[
 \* (a linked target's `ins` are generated headers passed as includes=: all its objects depend on them)
 \* (extra_compile_deps is forwarded to the object files, not to the precompiled-header step)
 CDeps(script, o) == IF o = PchObj(o[1]) THEN {} ELSE ToSet(Decl(script, o[1]).cdeps)
-ObjReadsTarget(script, o, x) == \/ (o[2].t # "" /\ x \in Upstream(script, o[2].t, "must"))
-                                \/ \E h \in TargetsOf(Decl(script, o[1]).ins) : x \in Upstream(script, h, "must")
-                                \/ \E c \in CDeps(script, o) : x \in Upstream(script, c, "must")
+\* (mode "may": also through what a static library on the way merely declares - its libs=)
+ObjReadsTargetM(script, o, x, mode) == \/ (o[2].t # "" /\ x \in Upstream(script, o[2].t, mode))
+                                       \/ \E h \in TargetsOf(Decl(script, o[1]).ins) : x \in Upstream(script, h, mode)
+                                       \/ \E c \in CDeps(script, o) : x \in Upstream(script, c, mode)
+ObjReadsTarget(script, o, x) == ObjReadsTargetM(script, o, x, "must")
 =============================================================================
